@@ -280,9 +280,13 @@ def c03(ctx):
 @prop("C05")
 def c05(ctx):
     mc_calls(ctx, "MC_Calls", False, 3 if ctx.quick else 4, 5, ["TypeOK", "Inv_C05"])
+    # the source fails once, anywhere in any read schedule of the documents of MC_ReaderBuf: the read error surfaces in that call
+    rb = C.tlc_mc("C05_MC_ReaderBuf_err", "MC_ReaderBuf", cfg(constants={"Caps": "{16, 17}", "MaxDoc": 8 if ctx.quick else 10, "WithPauses": "FALSE", "WithErrors": "TRUE"},
+                  invariants=["ErrSurfaces", "WinInv", "Bounded"]), workers=8, timeout=3000, heap="12g", coverage=False)
+    ctx.add_mc(rb)
     reader_check(ctx, "C05", (4, "{0, 7}", "Buf_noneB", "{TRUE, FALSE}", "Maxes_2"),
                  ["reader:total", "reader:mutate", "reader:sched_smallcap"], gen_args=(3, "{0, 5, 7}", "{TRUE, FALSE}"),
-                 thorough_mc_args=(5, "{0, 7}", "Buf_noneB", "{TRUE, FALSE}", "Maxes_2"))
+                 thorough_mc_args=(5, "{0, 7}", "Buf_noneB", "{TRUE, FALSE}", "Maxes_2"), lb=True)
     ctx.rule = "one evaluation = one run (call history of next()/try_recover() over one input/configuration/read schedule incl. injected source errors) under catch_unwind; the monitor reads result classes, counts, the io string; distinct as for C03"
 
 
@@ -348,7 +352,7 @@ def c04(ctx):
     ctx.add_mc(r)
     # the windowed reader refines the abstract one: every composition of the input into reads x capacities (and pauses)
     for nm, pauses, maxdoc in (("MC_ReaderBuf", "FALSE", 10 if ctx.quick else 12), ("MC_ReaderBuf_pauses", "TRUE", 8 if ctx.quick else 10)):
-        rb = C.tlc_mc("C04_" + nm, "MC_ReaderBuf", cfg(constants={"Caps": "{16, 17}" if ctx.quick else "{16, 17, 20, 64}", "MaxDoc": maxdoc, "WithPauses": pauses},
+        rb = C.tlc_mc("C04_" + nm, "MC_ReaderBuf", cfg(constants={"Caps": "{16, 17}" if ctx.quick else "{16, 17, 20, 64}", "MaxDoc": maxdoc, "WithPauses": pauses, "WithErrors": "FALSE"},
                       invariants=["Refines", "WinInv", "CapInv"]), workers=8, timeout=3000, heap="12g", coverage=False)
         ctx.add_mc(rb)
     reader_check(ctx, "C04", None, ["reader:sched", "reader:sched_smallcap"], gen_args=None, l1=False, lb=True)
@@ -504,9 +508,12 @@ def c17(ctx):
 
 @prop("C20")
 def c20(ctx):
-    consts = {"MaxLen": 4 if ctx.quick else 5, "Sigma": SIGMA12, "Wrapper": '"header_aware"'}
+    consts = {"MaxLen": 4 if ctx.quick else 5, "Sigma": SIGMA12, "Wrapper": '"header_aware"', "UseDocs": "FALSE"}
     r = C.tlc_mc("C20_MC_Async", "MC_Async", cfg(constants=consts, invariants=["Refines", "EndsOnce", "StepWise"]), workers=12, timeout=3000, heap="12g", coverage=False)
     ctx.add_mc(r)
+    consts["UseDocs"] = "TRUE"    # longer documents (corrupt headers reaching past a buffered master, adjacent / nested buffered masters) x every split
+    r2 = C.tlc_mc("C20_MC_Async_docs", "MC_Async", cfg(constants=consts, invariants=["Refines", "EndsOnce", "StepWise"]), workers=4, timeout=3000, heap="8g", coverage=False)
+    ctx.add_mc(r2)
     if r["depth"] < 8:
         raise C.ToolError("vacuity: MC_Async explored only depth %d" % r["depth"])
     reader_check(ctx, "C20", None, ["async"], gen_args=None, l1=False)
